@@ -109,7 +109,7 @@ class Simulator:
             "_before" if event_hook.is_before else "_after"
         )
         times: List[Optional[int]] = (
-            cast(List[Optional[int]], event_hook.time)
+            cast(List[Optional[int]], list(dict.fromkeys(event_hook.time)))
             if event_hook.time is not None
             else cast(List[Optional[int]], [None])
         )
